@@ -195,6 +195,7 @@ def subscriptions(versions):
 
 
 def build(tier):
+    P.contract()  # tabulated once here, inherited by every forked explorer
     q = tier == "quick"
     hs = [
         Harness("send-recv", send_recv(["2.2"] if q else ["1.4", "2.2"], 1 if q else 2, 2,
